@@ -33,11 +33,11 @@ func Run(r *core.Report, env *build.Env) {
 		{Pkg: "src/parser", Func: "VerifC09OverloadTable3", Bound: "3 overloads registered in any order"},
 		{Pkg: "src/parser/typechecker", Func: "VerifC09FindOverload1", Bound: "table of 1 overload x 2 operands"},
 		{Pkg: "src/parser/typechecker", Func: "VerifC09FindOverload2", Bound: "table of 2 overloads x 2 operands"},
-		{Pkg: "src/parser", Func: "VerifC09CallSites", Bound: "populations of up to 3 of 10 alias declarations over the vocabulary 'stufe <a> [plus <b>]' (value/Referenz, Zahl/Text/type definition/Zahlen Liste, generic T and T Liste, permuted placeholders) x 8 argument forms per position"},
+		{Pkg: "src/parser", Func: "VerifC09CallSites", Bound: "populations of up to 3 of 11 alias declarations over the vocabulary 'stufe <a> [plus <b>]' (value/Referenz, Zahl/Text/type definition/Zahlen Liste, generic T and T Liste, a generic function whose instantiation fails for all but one argument type, permuted placeholders) x 8 argument forms per position"},
 	}
 	if r.Tier == "thorough" {
 		hs = append(hs,
-			goh.Harness{Pkg: "src/parser", Func: "VerifC09CallSitesAll", Bound: "every population of the 10 alias declarations x 8 argument forms per position"},
+			goh.Harness{Pkg: "src/parser", Func: "VerifC09CallSitesAll", Bound: "every population of the 11 alias declarations x 8 argument forms per position"},
 		)
 	}
 	for _, h := range hs {
